@@ -394,7 +394,9 @@ def run_units(scratch, units, prop, tier, canaries=True):
         for fn, fs in by_fn.items():
             if all((f in others) or common_known(f) for f in fs):
                 not_counted += 1
-        not_counted = min(not_counted, res["errors"])
+        # Verus counts proof ITEMS (a function body and each of its loops are separate items): when every
+        # failing function of the unit is excluded, all failed items are
+        not_counted = res["errors"] if (by_fn and not_counted == len(by_fn)) else min(not_counted, res["errors"])
         out["obligations"] += res["verified"] + res["errors"] - not_counted
         out["discharged"] += res["verified"]
         out["items_not_counted"] = out.get("items_not_counted", 0) + not_counted
